@@ -170,6 +170,33 @@ Section Exchange.
     - apply refused_no_upstream. exact Hv.
   Qed.
 
+  (* a whole client connection, MITM'd tunnels included: whatever was read before, and whether the
+     request was read from inside an intercepted tunnel or not, a request the chain refuses
+     causes no upstream event *)
+  Lemma conn_run_sound cfg e qs : forall inside ins t,
+    In (ins, t) (conn_run cfg e inside qs) ->
+    exists q up, In (q, up) qs /\ t = exchange cfg e q up /\
+      (forall k, verdict_of cfg e q = Deny k ->
+         upstream_events t = [] /\ responses t = [(status_of k, written_error_headers cfg k)]).
+  Proof.
+    induction qs as [|[q up] rest IH]; intros inside ins t H; simpl in H; [contradiction|].
+    destruct H as [H|H].
+    - inversion H; subst. exists q, up. split; [left; reflexivity|]. split; [reflexivity|].
+      intros k Hk. apply refused_no_upstream. exact Hk.
+    - assert (exists b, In (ins, t) (conn_run cfg e b rest)) as [b Hb].
+      { destruct (is_connect q); [|eauto].
+        destruct (verdict_of cfg e q); [|eauto].
+        destruct (c_mitm cfg); [eauto | contradiction]. }
+      destruct (IH b ins t Hb) as (q' & up' & Hin & Ht & Hd).
+      exists q', up'. split; [right; exact Hin | split; assumption].
+  Qed.
+
+  (* after an accepted CONNECT under MITM the following requests are "inside" *)
+  Lemma conn_run_enters_mitm cfg e q up rest :
+    is_connect q = true -> verdict_of cfg e q = Allow -> c_mitm cfg = true ->
+    conn_run cfg e false ((q, up) :: rest) = (false, exchange cfg e q up) :: conn_run cfg e true rest.
+  Proof. intros Hc Hv Hm. simpl. rewrite Hc, Hv, Hm. reflexivity. Qed.
+
   Lemma allowed_exchange cfg e q up :
     verdict_of cfg e q = Allow ->
     exchange cfg e q up =
